@@ -782,7 +782,7 @@ pub fn mon_c12(log: &[Rec], m: &mut Mon) {
     let mut reboot_asks = 0usize;
     // control requests: (req id, on_demand, replied, used to justify a reboot question)
     let mut reqs: Vec<(usize, bool, bool, bool)> = vec![];
-    let mut check_wait_timers = |m: &mut Mon, w: &mut Wait, ctx: &str| {
+    let check_wait_timers = |m: &mut Mon, w: &mut Wait, ctx: &str| {
         if w.armed_complete_checked {
             return;
         }
@@ -917,4 +917,193 @@ pub fn mon_c12(log: &[Rec], m: &mut Mon) {
             _ => {}
         }
     }
+}
+
+// ---------------------------------------------------------------------------------------------
+// C11: every control request gets exactly one, truthful reply
+
+pub struct CtlReq {
+    pub req: usize,
+    pub on_demand: bool,
+    pub send_seq: u64,
+    pub reply: Option<(String, u64, u64)>, // reply, lo, hi
+    pub gone_expected: bool,
+}
+
+pub fn collect_ctl(log: &[Rec]) -> Vec<CtlReq> {
+    let mut v: Vec<CtlReq> = vec![];
+    let mut gone = false;
+    for r in log {
+        match &r.ev {
+            Ev::Note(s) if s == "stream dropped" => gone = true,
+            Ev::StreamEnd => gone = true,
+            Ev::Crash { .. } => gone = true,
+            Ev::Built => gone = false,
+            Ev::CtlSend { req, on_demand, .. } => v.push(CtlReq { req: *req, on_demand: *on_demand, send_seq: r.seq, reply: None, gone_expected: gone }),
+            Ev::CtlReply { req, reply, lo, hi } => {
+                if let Some(x) = v.iter_mut().find(|x| x.req == *req) {
+                    x.reply = Some((reply.clone(), *lo, *hi));
+                }
+            }
+            _ => {}
+        }
+    }
+    v
+}
+
+/// `drained`: the scheduler stopped injecting and released every gate until nothing moved.
+pub fn mon_c11(log: &[Rec], f: &Flow, drained: bool, m: &mut Mon) {
+    let reqs = collect_ctl(log);
+    // replies appear at most once per request by construction of the log (a future resolves once);
+    // the driver would have logged a second CtlReply if a future were polled to completion twice.
+    let mut seen = BTreeSet::new();
+    for r in log {
+        if let Ev::CtlReply { req, .. } = &r.ev {
+            m.judge("c11-at-most-one-reply", seen.insert(*req), "", || format!("request {} got a second reply at seq {}", req, r.seq));
+        }
+    }
+    // brackets during which the machine is busy: [positive decision, next Idle taken]
+    let mut brackets: Vec<(u64, u64)> = vec![];
+    for a in f.alloweds.iter().filter(|a| a.5.params().is_some()) {
+        let end = f.idle.iter().find(|s| **s > a.0).copied().unwrap_or(u64::MAX);
+        brackets.push((a.0, end));
+    }
+    // policy calls available for attribution
+    let calls: Vec<(u64, bool, bool)> = f.alloweds.iter().map(|a| (a.0, a.4, a.5.params().is_some())).collect();
+    // which calls can be explained by timers alone (all timers of the preceding wait fired)?
+    let timer_ok = timer_explained(log);
+    for q in &reqs {
+        match &q.reply {
+            None => {
+                if drained {
+                    m.judge("c11-every-request-answered", false, if q.gone_expected { "after-machine-gone" } else { "pending" }, || {
+                        format!("request {} (on_demand={}) sent at seq {} never got a reply although the run was drained", q.req, q.on_demand, q.send_seq)
+                    });
+                }
+            }
+            Some((reply, lo, hi)) => {
+                m.hit("c11-every-request-answered");
+                if q.gone_expected {
+                    m.judge("c11-gone-after-machine-gone", reply == "Gone", "", || format!("request {} sent after the machine was gone got {:?}", q.req, reply));
+                    continue;
+                }
+                match reply.as_str() {
+                    "AlreadyRunning" => {
+                        let ok = brackets.iter().any(|(s, e)| *s <= *hi && *e >= (*lo).max(q.send_seq));
+                        m.judge("c11-already-running-truthful", ok, "", || {
+                            format!("request {} replied AlreadyRunning in [{}, {}] but no check / reboot wait was in progress then (brackets {:?})", q.req, lo, hi, brackets)
+                        });
+                    }
+                    "Gone" => {
+                        // legitimate only if the machine disappeared before the reply
+                        let died = log.iter().any(|r| r.seq <= *hi && matches!(&r.ev, Ev::StreamEnd | Ev::Crash { .. }) || matches!(&r.ev, Ev::Note(s) if s == "stream dropped" && r.seq <= *hi));
+                        m.judge("c11-gone-only-when-gone", died, "", || format!("request {} replied Gone at [{}, {}] while the machine was alive", q.req, lo, hi));
+                    }
+                    _ => {}
+                }
+            }
+        }
+    }
+    // Started / Throttled: find an injective assignment of policy calls to these requests
+    let st: Vec<&CtlReq> = reqs.iter().filter(|q| matches!(&q.reply, Some((r, _, _)) if r == "Started" || r == "Throttled") && !q.gone_expected).collect();
+    // requests whose reply never came or was Gone (the machine went away after taking them)
+    let loose: Vec<(u64, bool)> = reqs
+        .iter()
+        .filter(|q| !q.gone_expected && matches!(&q.reply, None | Some((_, _, _))) && !matches!(&q.reply, Some((r, _, _)) if r == "Started" || r == "Throttled" || r == "AlreadyRunning"))
+        .map(|q| (q.send_seq, q.on_demand))
+        .collect();
+    fn assign(i: usize, st: &[&CtlReq], calls: &[(u64, bool, bool)], used: &mut Vec<bool>, timer_ok: &BTreeMap<u64, bool>, loose: &[(u64, bool)]) -> bool {
+        if i == st.len() {
+            // every unassigned call must be explainable by timers (or by a request that was taken
+            // by the machine but never answered because the machine went away)
+            return calls.iter().enumerate().all(|(k, c)| used[k] || *timer_ok.get(&c.0).unwrap_or(&false) || loose.iter().any(|l| l.0 < c.0 && l.1 == c.1));
+        }
+        let q = st[i];
+        let (reply, _lo, hi) = q.reply.as_ref().unwrap();
+        let want_pos = reply == "Started";
+        for (k, c) in calls.iter().enumerate() {
+            if !used[k] && c.0 > q.send_seq && c.0 <= *hi && c.1 == q.on_demand && c.2 == want_pos {
+                used[k] = true;
+                if assign(i + 1, st, calls, used, timer_ok, loose) {
+                    return true;
+                }
+                used[k] = false;
+            }
+        }
+        false
+    }
+    if !st.is_empty() || !calls.is_empty() {
+        let mut used = vec![false; calls.len()];
+        let ok = assign(0, &st, &calls, &mut used, &timer_ok, &loose);
+        m.judge("c11-started-throttled-attribution", ok, "", || {
+            format!(
+                "no consistent attribution: requests {:?}; update_check_allowed calls (seq, on_demand, positive) {:?}; timer-explainable {:?}",
+                st.iter().map(|q| (q.req, q.on_demand, q.send_seq, q.reply.clone())).collect::<Vec<_>>(),
+                calls,
+                timer_ok
+            )
+        });
+    }
+    // reboot question carries on-demand only if an on-demand request justifies it
+    for wv in &f.waits {
+        let check = f.checks.iter().find(|c| c.end_seq < wv.start_seq && c.idx == wv.check_idx).or_else(|| f.checks.iter().filter(|c| c.end_seq < wv.start_seq).last());
+        let Some(check) = check else { continue };
+        let started_od = check.allowed.map(|a| a.2).unwrap_or(false);
+        let begin = check.allowed.map(|a| a.0).unwrap_or(check.start_seq);
+        for (seq, od, _) in &wv.allowed {
+            if *od {
+                let justified = started_od
+                    || reqs.iter().any(|q| q.on_demand && q.send_seq < *seq && q.reply.as_ref().map(|x| x.2 > begin).unwrap_or(true));
+                m.judge("c11-reboot-question-on-demand-justified", justified, "", || {
+                    format!("reboot_allowed asked with OnDemand at seq {} but no on-demand request arrived since the check began at seq {}", seq, begin)
+                });
+            }
+        }
+        // an on-demand request answered during the reboot wait is followed by an on-demand reboot question
+        for q in reqs.iter().filter(|q| q.on_demand && q.send_seq > wv.start_seq) {
+            let Some((reply, _lo, hi)) = &q.reply else { continue };
+            if reply != "AlreadyRunning" || *hi > wv.end_seq {
+                continue;
+            }
+            // the machine must still have been waiting when it took the request: a reboot question
+            // with OnDemand at or before the reply's hi bound + the poll it was logged in
+            let asked = wv.allowed.iter().any(|(s, od, _)| *od && *s > q.send_seq);
+            let rebooted_before = wv.reboot_seq.map(|s| s < q.send_seq).unwrap_or(false);
+            if !rebooted_before {
+                m.judge("c11-on-demand-upgrades-reboot-question", asked, "", || {
+                    format!("on-demand request {} was answered AlreadyRunning during the reboot wait (reply in [{}..{}]) but reboot_allowed was never asked with OnDemand afterwards; questions {:?}", q.req, q.send_seq, hi, wv.allowed)
+                });
+            }
+        }
+    }
+}
+
+/// For every update_check_allowed call: had all timers of the preceding wait fired?
+fn timer_explained(log: &[Rec]) -> BTreeMap<u64, bool> {
+    let mut out = BTreeMap::new();
+    let mut timers: Vec<usize> = vec![];
+    let mut fired: Vec<usize> = vec![];
+    let mut have_wait = false;
+    for r in log {
+        match &r.ev {
+            Ev::PolicyNext { .. } => {
+                timers.clear();
+                fired.clear();
+                have_wait = true;
+            }
+            Ev::TimerArm { id, spec } => {
+                if have_wait && !matches!(spec, TimerSpec::For(d) if *d < 10_000_000_000) {
+                    timers.push(*id);
+                }
+            }
+            Ev::TimerFire { id } => fired.push(*id),
+            Ev::PolicyCheckAllowed { .. } => {
+                let ok = have_wait && !timers.is_empty() && timers.iter().all(|t| fired.contains(t));
+                out.insert(r.seq, ok);
+                have_wait = false;
+            }
+            _ => {}
+        }
+    }
+    out
 }
